@@ -349,6 +349,29 @@ PROPS["C20"] = {
                     "timing: 'spin' is judged by CPU ticks of the process over a quarter of a second of silence, 'answered' by a 1.5 s deadline"],
 }
 
+PROPS["C01"] = {
+    "streams": [{"name": "net", "chunk_prefixes": ["N0 INIT"]}],
+    "rule": "net: networks of 2 … 5 (thorough: … 8) real PtpInstances - lines, stars, rings, one shared segment, a shared segment with two "
+            "ports of one instance on it plus a tail, random connected graphs with extra links - with every ranking of priority1 / clockClass / "
+            "accuracy / variance / priority2 / identity; one scenario in three also has clockClass < 128 instances, slave-only instances and "
+            "master-only ports. The simulator delivers every Announce to the other ports of its segment after 10 … 910 us, fires announce "
+            "timers as armed, announce receipt timers after 3 … 6 s (the port's random stretch), runs each instance's BMCA every second with a "
+            "random phase and a few ms of jitter and a random port order. Cold start, 8 + 5·N s to settle, 8 s of observation; then one fault "
+            "(cut a port off its segment, silence a node, change a node's quality to best / worst, cut and restore), settle again, observe. "
+            "Every call on every instance is compared with the Lean instance model (port states, data sets, frames, timer actions). At every "
+            "judged point the instances' states are handed to the abstract network model (NETX), which must find them a fixed point of its "
+            "node-wise re-evaluation. Independent oracle on the instances' states, per connected component: the best-ranked instance is the "
+            "only one acting as grandmaster, every other instance that may be slave has exactly one Slave port and its parent chain reaches "
+            "the best with strictly decreasing stepsRemoved and the same grandmaster, every segment with a master-capable instance has exactly "
+            "one Master port, and nothing changes during the observation window. distinct = distinct op lines",
+    "explanation": "composition of the verified instance model over a simulated network (every call compared), abstract fixed-point model tied to the converged states, Lean theorems about its fixed points, convergence / no-flap oracle",
+    "assumptions": ["convergence within the stated time and re-convergence after a fault are judged on the sampled scenarios (bounded simulation); the theorems are about fixed points of the abstract model",
+                    "networks with a non-relaying instance besides the best clock (clockClass < 128, slave-only, master-only port) do not satisfy the property's literal wording under IEEE 1588 either: recorded as a known finding, judged only against the abstract model's fixed points",
+                    "all ports use announce interval 2^0 s and receipt timeout 3; only Announce traffic is simulated (Sync / delay messages do not influence port states or data sets: C07, C08)",
+                    "the abstract model's timing abstraction: a port that hears no Announce becomes Master (receipt timeout), one that keeps hearing any Announce does not time out"],
+    "nontrivial_op": None,
+}
+
 PROPS["C17"] = {
     "streams": [{"name": "inst"}, {"name": "tlv"}, {"name": "timed"}, {"name": "threads", "model": False}],
     "model_is_spec": ["inst", "tlv", "timed"],
@@ -517,5 +540,5 @@ def replay_body(pid, stream, ops, idx):
     return ops[idx] + "\n"
 
 
-STATEFUL = {"inst", "bmca", "fml", "c07", "master", "view", "tlv", "timed", "filt", "loop", "exporter"}
-SCENARIO_START = {"filt": ("FLT knew", "FLT bnew"), "loop": ("FLT knew", "FLT bnew"), "exporter": ("EXP new",)}
+STATEFUL = {"inst", "bmca", "fml", "c07", "master", "view", "tlv", "timed", "filt", "loop", "exporter", "net"}
+SCENARIO_START = {"filt": ("FLT knew", "FLT bnew"), "loop": ("FLT knew", "FLT bnew"), "exporter": ("EXP new",), "net": ("N0 INIT",)}
